@@ -75,6 +75,10 @@ def _work(item):
     e0, n0 = env.evals, env.nontrivial
     env.classes = {}
     env.cov = {}
+    from . import findings as _findings
+    kdata = _findings.load()
+    kentries = [e for e in kdata['known'] if e.get('property') == prop]
+    khits = {}
     ncases = 0
     nfail = 0
     fails = []
@@ -102,11 +106,17 @@ def _work(item):
                 continue
             finally:
                 signal.alarm(0)
-            fl = _norm_fail(sub, case, r)
-            if fl:
-                nfail += len(fl)
-                if len(fails) < MAX_STORED_FAILS:
-                    fails.extend(fl[:MAX_STORED_FAILS - len(fails)])
+            for one in _norm_fail(sub, case, r):
+                # known findings are matched here, so that the storage cap applies to unlisted failures only
+                for e in kentries:
+                    if _findings.match(e, prop, one):
+                        h = khits.setdefault(e['id'], [0, one])
+                        h[0] += 1
+                        break
+                else:
+                    nfail += 1
+                    if len(fails) < MAX_STORED_FAILS:
+                        fails.append(one)
             if len(samples) < 2 and (k == 0):
                 samples.append({'sub': sub.name, 'case': sub.describe(case)})
     except CaseTimeout:
@@ -114,7 +124,7 @@ def _work(item):
     except Exception:
         harness.append('enumeration crashed in %s:\n%s' % (sub.name, traceback.format_exc()))
     return {'si': si, 'cases': ncases, 'evals': env.evals - e0, 'nontrivial': env.nontrivial - n0,
-            'classes': env.classes, 'cov': env.cov, 'nfail': nfail, 'fails': fails,
+            'classes': env.classes, 'cov': env.cov, 'nfail': nfail, 'fails': fails, 'khits': khits,
             'samples': samples, 'harness': harness, 'wall': time.time() - t0,
             'maxline': getattr(env, 'maxline', 0)}
 
@@ -180,11 +190,18 @@ def run(prop, tier):
     ctx = multiprocessing.get_context('fork')
     agg = {}
     harness = []
+    khit_all = {}
     with ctx.Pool(min(jobs, max(1, len(items)))) as pool:
         for res in pool.imap_unordered(_work, items, chunksize=1):
             a = agg.setdefault(res['si'], {'cases': 0, 'evals': 0, 'nontrivial': 0, 'classes': {},
                                            'cov': {}, 'nfail': 0, 'fails': [], 'samples': [],
-                                           'maxline': 0})
+                                           'maxline': 0, 'known': 0})
+            for kid, (cnt, first) in res['khits'].items():
+                a['known'] += cnt
+                if kid in khit_all:
+                    khit_all[kid][0] += cnt
+                else:
+                    khit_all[kid] = [cnt, first]
             for key in ('cases', 'evals', 'nontrivial', 'nfail'):
                 a[key] += res[key]
             for c, v in res['classes'].items():
@@ -207,10 +224,11 @@ def run(prop, tier):
             continue
         per_sub[sub.name] = {'cases': a['cases'], 'evaluations': a['evals'],
                              'nontrivial': a['nontrivial'], 'outcome_classes': len(a['classes']),
-                             'violations': a['nfail'], 'rule': sub.rule}
+                             'violations': a['nfail'], 'known_finding_cases': a['known'],
+                             'rule': sub.rule}
         if a['cov']:
             per_sub[sub.name]['coverage'] = a['cov']
-        if a['nfail']:
+        if a['nfail'] or a['known']:
             continue        # a failing sub-check stops early; its counts say nothing about vacuity
         if a['cases'] < sub.min_cases:
             harness.append('vacuity: %s explored %d cases (< %d)' % (sub.name, a['cases'], sub.min_cases))
@@ -226,13 +244,14 @@ def run(prop, tier):
         all_fails.extend(agg[si]['fails'])
     total_fail = sum(a['nfail'] for a in agg.values())
     data = findings.load()
-    new, hit = findings.split(prop, all_fails, data)
-    # failures beyond the per-item storage cap are unlisted by definition of "not shown to match"
+    new = all_fails                 # already filtered against known_findings.json in the workers
     stored = len(all_fails)
-
-    for kid, (e, cnt, first) in sorted(hit.items()):
-        print('KNOWN-FINDING: property=%s %s [%s; %d stored case(s), e.g. %s]' % (
-            prop, e.get('what'), e.get('sub'), cnt, json.dumps(first['case'], default=str)[:160]))
+    hit = khit_all
+    kmap = dict((e['id'], e) for e in data['known'])
+    for kid, (cnt, first) in sorted(hit.items()):
+        e = kmap[kid]
+        print('KNOWN-FINDING: property=%s %s [%s %s; %d case(s), e.g. %s]' % (
+            prop, e.get('what'), kid, e.get('sub'), cnt, json.dumps(first['case'], default=str)[:160]))
 
     # ---- replay files, reproduced once in a fresh process (R3)
     seen = set()
@@ -275,8 +294,9 @@ def run(prop, tier):
         prop, tier, len(per_sub), cov['cases'], cov['evaluations'], cov['distinct_nontrivial'],
         wall, seed))
     for name, s in per_sub.items():
-        print('  %-28s cases=%-9d evals=%-9d nontrivial=%-9d classes=%-4d viol=%d' % (
-            name, s['cases'], s['evaluations'], s['nontrivial'], s['outcome_classes'], s['violations']))
+        print('  %-28s cases=%-9d evals=%-9d nontrivial=%-9d classes=%-4d viol=%d known=%d' % (
+            name, s['cases'], s['evaluations'], s['nontrivial'], s['outcome_classes'], s['violations'],
+            s['known_finding_cases']))
     for h in harness[:10]:
         print('HARNESS-ERROR: ' + h)
     if nonrepro or (harness and not (new or total_fail > stored)):
